@@ -15,6 +15,10 @@ from sim import core
 PROP = 'C11'
 VARIANTS = ['bare']
 MAX_OPS = 40
+CLOCK_ERRORS_BY_NAME = {e.__name__: e for e in (
+    KeyError, LookupError, IndexError, ValueError, AttributeError, TypeError,
+    RuntimeError, OSError, StopIteration, ArithmeticError)}
+CLOCK_ERRORS = sorted(CLOCK_ERRORS_BY_NAME)
 ISO = ['EUR', 'USD', 'HKD', 'JPY', 'CHF', 'GBP', 'TND', 'KWD', 'CLF', 'SEK']
 PRIMES = None
 
@@ -133,6 +137,7 @@ def gen(seed, run, tier='quick'):
          'call': rng.choice([1, 2]), 'implicit': rng.choice([0, 1, 2]),
          'clock': rng.choice([0, 1, 3]),
          'tick': rng.choice([0, 0, 1, 2]),
+         'clockfail': rng.choice([0, 0, 1, 1]),
          'bad_validity': rng.choice([0, 1, 2]),
          'datetime_validity': rng.choice([0, 0, 1]),
          'late': rng.choice([1, 2]) if late else 0,
@@ -288,6 +293,16 @@ def gen(seed, run, tier='quick'):
             ops.append(['tick', rng.choice([1, 1, 2, 3]),
                         some_date().isoformat(), ci])
             ops.append(['get', ci, a, b, None])
+        elif k == 'clockfail':
+            # the configured callable fails during the next default-date
+            # lookup
+            a, b = rng.sample(range(n_cur), 2)
+            ops.append(['clockfail', rng.choice(CLOCK_ERRORS), ci])
+            if rng.random() < 0.6:
+                ops.append(['get', ci, a, b, None])
+            else:
+                ops.append(['call', ci, a, b, None,
+                            f"{rng.randrange(1, 10 ** 5)}/100"])
     probe_dates = sorted({d.isoformat()
                           for d in rng.sample(pool, min(5, len(pool)))}
                          | {far.isoformat()})
@@ -635,6 +650,16 @@ def execute(h):
             bump(faults, 'clock_tick_during_lookup' if not clock.script
                  else 'clock_tick_armed_but_not_reached')
         clock.disarm()
+        failed, clock.raised, clock.fail_next = clock.raised, None, None
+        if failed is not None:
+            # the callable gave no date: whatever is answered was not
+            # derived from the configured callable
+            bump(faults, 'clock_callable_raised_during_lookup')
+            if a != b and o[0] != 'exc':
+                violate('lookup', 'clock_failure_masked', i, op=op[0],
+                        conv=ci, pair=[a, b], raised=type(failed).__name__,
+                        observed=list(o))
+            return o
         if d is None:
             dates = list(dict.fromkeys(clock.trace)) or [today0]
             bump(probes, 'default_date_lookup')
@@ -873,6 +898,14 @@ def execute(h):
                     bump(faults, 'clock_jump_forward')
                 clock.set(d)
                 out = 'set'
+            elif kind == 'clockfail':
+                ci = op[2] % len(convs)
+                if cfg['convs'][ci]['clock'] == 'callable':
+                    cclk[ci].fail(CLOCK_ERRORS_BY_NAME[op[1]](
+                        'booking_date'))
+                    out = 'will_fail'
+                else:
+                    out = 'system_clock_does_not_fail'
             elif kind == 'tick':
                 clock = cclk[(op[3] if len(op) > 3 else 0) % len(convs)]
                 d = dt.date.fromisoformat(op[2])
